@@ -316,6 +316,7 @@ static Plan decode_plan(const ShapeDesc& sd, vk::Choice& c) {
     unsigned os = c.upto(20);
     s.on_stop = os < 6 ? 0 : os < 15 ? 1 : 2;
     s.stop_root_in_start = c.chance(1, 16);
+    if (leaf_kind[(size_t)l] == 1 && s.on_stop == 2) s.on_stop = 1;   // an always_inline leaf may only complete inside start()
     if (leaf_kind[(size_t)l] == 2) { s.on_stop = 0; for (auto& at : s.attempts) if (at.timing == 2) at.timing = 1; }
     for (auto& at : s.attempts) if (at.timing == 2 && s.on_stop == 0) s.on_stop = 1;
     if (exclude_embedded && embedded_src[(size_t)l] && s.on_stop == 1) { s.on_stop = 2; vk::ctx().label("altered-by-known-finding:stop_source_destroyed_in_callback"); }
